@@ -2419,7 +2419,9 @@ def normalize_module(tree: ast.Module, extern=None) -> ast.Module:
     from . import normalize2 as n2
     n2.sentinel_gets(tree)
     n2.sentinel_get_tests(tree)
-    n2.unused_sentinel_params(tree)
+    if n2.unused_sentinel_params(tree):
+        tree = n2.Idioms3().visit(tree)
+        n2.drop_dead_tails(tree)
     n2.unroll_reduce(tree)
     n2.inline_record_tables(tree)
     if n2.inline_value_objects(tree):
